@@ -10,9 +10,20 @@ PROPS = {
     'C14': dict(units=[], level='model_checking', title='float casts'),
 }
 
+# units instantiated for an ordered PAIR of digit types (target `$D..`, source `$D2..`): their entries
+# exist only in pair instantiations; digit tag 'AxB' (e.g. u64xu32 = BUintD32/BIntD32 -> BUint/BInt)
+PAIR_UNITS = {'xcast'}
+
 QUICK_DIGITS = ['u64', 'u8']
 ALL_DIGITS = ['u64', 'u32', 'u16', 'u8']
 
 
 def unit_modes(unit):
     return UNIT_MODES.get(unit, ['dbg'])
+
+
+def unit_digits(unit, digits):
+    """digit tags for which a unit is instantiated: the digit types, or all ordered pairs of them"""
+    if unit in PAIR_UNITS:
+        return [f'{a}x{b}' for a in digits for b in digits if a != b]
+    return list(digits)
